@@ -8,8 +8,10 @@ random.choice results of Selector.pop_acceptance.  These tapes are the inputs of
 model's Problem.populations(), call log, call counts and working-population sizes are compared
 with the implementation's inside Coq, bit for bit.
 """
+import atexit
 import contextlib
 import io
+import shutil
 import itertools
 import math
 
@@ -19,7 +21,10 @@ PROP = "C09"
 THEOREMS = {"Artap.Props.C09": [
     "C09_generate_exact", "C09_nsga2_bookkeeping", "C09_pso_epsmoea_bookkeeping", "C09_nsga2_elitism",
     "C09_single_objective_best_monotone", "C09_pop_acceptance_size", "C09_pop_acceptance_cases",
-    "C09_pop_acceptance_total", "C09_epsmoea_population_size", "C09_no_failures_fresh"]}
+    "C09_pop_acceptance_total", "C09_epsmoea_population_size", "C09_no_failures_fresh"],
+    # the NSGA-II theorems with the C02 sorter (Fnds.fnds) and the C03 truncation (Selection.truncate) plugged in
+    "Artap.Proofs.RunsCompose": ["front_rank_c", "select_len_c", "select_nodup_c", "select_incl_c", "select_elitist_c",
+                                 "nsga2_bookkeeping_composed", "nsga2_elitism_composed"]}
 AXIOMS_OK = []
 TRUSTED = [
     "Coq 8.16.1 kernel, vm_compute for model evaluation (no native_compute)",
@@ -29,8 +34,10 @@ TRUSTED = [
     "the objective is a tape of (first vector, replacement vectors, signed costs) per evaluated design; random.choice is an oracle; "
     "the theorems hold for every such tape",
     "the sorter + truncation is a function `select` specified by hypotheses (H_select_len, H_select_nodup, H_select_incl, "
-    "H_select_elitist, H_front_rank) in the form of the C02 / C03 theorems; in the correspondence it is the recorded result of the "
-    "real nondominated_truncate, and the harness re-applies the real selector to (offspring + parents) for every transition",
+    "H_select_elitist, H_front_rank) in Props/C09.v; Proofs/RunsCompose.v discharges all five for the concrete selector built "
+    "from Model/Fnds.v and Model/Selection.v (FndsProofs.fnds_rank, SelectionProofs.truncate_spec / truncate_total), for every "
+    "crowding-distance function and every iteration order of the set; in the correspondence `select` is the recorded result of "
+    "the real nondominated_truncate, and the harness re-applies the real selector to (offspring + parents) for every transition",
     "PrimFloat primitives appear only in the driver (Run/C09Run.v), not under the theorems",
 ]
 ASSUMPTIONS = [
@@ -38,7 +45,9 @@ ASSUMPTIONS = [
     "no design fails 5 times in a row (Job.evaluate would raise) and generate's while loop terminates (finite candidate stream)",
     "H_fresh: after transient failures the evaluated offspring of a generation are still pairwise different designs "
     "(the replacement vector drawn by gen_vector does not repeat another offspring: a probability-one event); automatic without failures",
-    "H_same_veq: two designs merged by set() are == (same hash and Individual.__eq__, symmetric for equal-length vectors, C20)",
+    "H_same_veq: two designs merged by set() are == (same hash and Individual.__eq__, symmetric for equal-length vectors, C20); "
+    "RunsCompose additionally: the key equality is symmetric (H_same_sym), the observed set order is a permutation of the "
+    "representatives (H_order, the oracle validity condition of C03), all cost vectors have the same number of objectives",
     "H_same_cost (elitism for merged duplicates and best-cost monotonicity): designs merged by set() carry equal signed costs "
     "(deterministic objective)",
 ]
@@ -250,6 +259,10 @@ def run(ctx):
             ops.Selector.pop_acceptance = orig_acc
             mod_nsga.nondominated_truncate = orig_trunc
             rec_box[0] = None
+            # Problem registers an atexit handler per instance that removes /tmp/artap-<time digits>/ (names collide
+            # between instances created in the same tick): clean up here instead
+            atexit.unregister(problem.cleanup)
+            shutil.rmtree(problem.working_dir, ignore_errors=True)
         return problem, rec, error
 
     shim = RandomShim()
@@ -505,7 +518,7 @@ def run(ctx):
         if len(ctx.samples) < 3 and cfg["fail_at"] and cfg["G"] >= 2:
             ctx.sample(m)
 
-    seeds = ctx.pick(1, 6)
+    seeds = ctx.pick(2, 6)
     n_list = NS + ([10, 12] if ctx.thorough else [])
     g_list = GS + ([8] if ctx.thorough else [])
     for algo in ("NSGAII", "EpsMOEA", "OMOPSO", "SMPSO"):
@@ -582,7 +595,7 @@ def run(ctx):
         if acc_hist["dominating"] == 1 and doms and len(ctx.samples) < 4:
             ctx.sample(mm)
 
-    ctx.coq_compare("c09", HEADER, "c09_case", "c09_obs", "c09_run", "c09_obs_eqb", cases, expected, meta, shard=40)
+    ctx.coq_compare("c09", HEADER, "c09_case", "c09_obs", "c09_run", "c09_obs_eqb", cases, expected, meta, shard=ctx.pick(60, 150))
     ctx.rule = ("one case = one real run of NSGAII / EpsMOEA / OMOPSO / SMPSO (N in %r, G in %r, 1..3 objectives, three objective "
                 "families incl. a coarse one with many ties, grid-rounded or continuous initial vectors, minimise/maximise, with and "
                 "without scripted TimeoutError/RuntimeError on chosen call numbers, runs of up to 4 consecutive failures) or one "
@@ -602,8 +615,10 @@ LEVEL_TEXT = ("Machine-checked Coq theorems over state-machine models of Genetic
               "generation and the single-objective best cost never gets worse; pop_acceptance keeps the list length and follows the "
               "three-way case statement. The models are tied to the code on every run by replaying real runs' tapes inside Coq and "
               "comparing populations, call log and counts bit for bit.")
-LEVEL_NOTE = ("The sorter + truncation enters the NSGA-II theorems through named hypotheses (H_select_len, H_select_nodup, "
-              "H_select_incl, H_select_elitist, H_front_rank) stated in the form of the C02 / C03 theorems: assumed here, proved under "
-              "C02/C03. H_fresh (replacement vectors after a failure do not repeat another offspring), H_same_veq (C20) and, for "
+LEVEL_NOTE = ("The sorter + truncation enters the NSGA-II theorems of Props/C09.v through named hypotheses (H_select_len, "
+              "H_select_nodup, H_select_incl, H_select_elitist, H_front_rank); Proofs/RunsCompose.v proves them for the selector "
+              "composed of the C02 model (Fnds.fnds) and the C03 model (Selection.truncate) and restates bookkeeping and elitism "
+              "without them (remaining premises there: set() key equality is symmetric and implies ==, the set order is a "
+              "permutation of the representatives, cost vectors have one length). H_fresh (replacement vectors after a failure do not repeat another offspring), H_same_veq (C20) and, for "
               "elitism of merged duplicates, H_same_cost (deterministic objective) are explicit hypotheses. Variation operators and the "
               "objective are tapes. Correspondence is sampled; the theorems are unbounded.")
